@@ -746,6 +746,15 @@ func suiteC15(c *Ctx) []Suite {
 								} else {
 									body = strings.Repeat(" "+t.elem, n)
 								}
+								// one time in six an element the type cannot hold stands among the others: it
+								// is reported where it stands and still counts as an element
+								badElem := ""
+								if lit, ok := map[string]string{"F4": "1e99", "F8": "1e999", "U1": "256", "U2": "65536", "U4": "4294967296", "U8": "18446744073709551616",
+									"I1": "128", "I2": "-32769", "I4": "2147483648", "I8": "9223372036854775808", "B": "256"}[t.ty]; ok && n > 0 && c.R.Intn(6) == 0 {
+									badElem = lit
+									k := c.R.Intn(n)
+									body = strings.Repeat(" "+t.elem, k) + " " + lit + strings.Repeat(" "+t.elem, n-1-k)
+								}
 								text := fmt.Sprintf("S1F1 H->E\n<L\n  <%s%s%s>\n>\n.", t.ty, decl, body)
 								res := parseSML(text)
 								cs := Case{Op: smlOp(text), Decisive: true, Nontrivial: true, Tags: []string{fmt.Sprintf("form:%d ok:%v", form, okWant)}}.fields("n err warn")
@@ -761,6 +770,10 @@ func suiteC15(c *Ctx) []Suite {
 								switch {
 								case res.panicked:
 									cs.Oracle = "panic"
+								case badElem != "":
+									if want := map[bool]int{true: 0, false: 1}[okWant]; sizeErr != want || len(res.errs) != want+1 || len(res.msgs) != 0 {
+										cs.Oracle = fmt.Sprintf("%s item with %d elements, one of them %s, declared %s: %d size errors among %d errors, %d messages", t.ty, n, badElem, decl, sizeErr, len(res.errs), len(res.msgs))
+									}
 								case okWant && (len(res.errs) != 0 || len(res.msgs) != 1):
 									cs.Oracle = fmt.Sprintf("%s item with %d elements declared %s rejected: %v", t.ty, n, decl, res.errs)
 								case !okWant && (sizeErr != 1 || len(res.msgs) != 0):
@@ -889,6 +902,10 @@ func suiteC15(c *Ctx) []Suite {
 				case 1:
 					return fmt.Sprintf(`<U1[%d..%d] 1 2 3>`, map[bool]int{true: 1, false: 4}[ok], 5), ok
 				case 2:
+					if c.R.Intn(3) == 0 {
+						// a declaration written over several lines (line breaks are blanks inside it)
+						return fmt.Sprintf("<B[..\n   %d\n ] 1 2>", map[bool]int{true: 2, false: 1}[ok]), ok
+					}
 					return fmt.Sprintf(`<B[..%d] 1 2>`, map[bool]int{true: 2, false: 1}[ok]), ok
 				}
 				return `<I2 7>`, true
@@ -932,6 +949,11 @@ func suiteC15(c *Ctx) []Suite {
 					}
 					lines = append(lines, fmt.Sprintf("%s%s<L[%d]", first, pad, declared))
 					myLine := len(lines)
+					if c.R.Intn(4) == 0 {
+						// the list's own declaration over three lines
+						lines[len(lines)-1] = fmt.Sprintf("%s%s<L[", first, pad)
+						lines = append(lines, fmt.Sprintf("%s    %d", pad, declared), pad+"  ]")
+					}
 					var kids []want
 					for k := 0; k < n; k++ {
 						if depth < 2 && c.R.Intn(3) == 0 {
@@ -941,10 +963,12 @@ func suiteC15(c *Ctx) []Suite {
 							wants = wants[:before]
 						} else {
 							t, ok := leaf()
-							lines = append(lines, pad+"  "+t)
+							parts := strings.Split(t, "\n")
+							lines = append(lines, pad+"  "+parts[0])
 							if !ok {
 								kids = append(kids, want{len(lines), len(pad) + 2 + strings.IndexByte(t, '[') + 1})
 							}
+							lines = append(lines, parts[1:]...)
 						}
 					}
 					lines = append(lines, pad+">")
@@ -1214,6 +1238,51 @@ func suiteC19(c *Ctx) []Suite {
 				default:
 					for j := range want {
 						if d := sameMessage(all.msgs[j], want[j]); d != "" {
+							cs.Oracle = fmt.Sprintf("message %d differs from the one parsed alone: %s", j, d)
+						}
+					}
+				}
+				out = append(out, cs)
+			}
+			return out
+		}},
+		{Name: "sml/concatenation-of-many-messages", Gen: func(c *Ctx) []Case {
+			// texts of many messages, each with a warning or two (no direction, a numbered
+			// ellipsis): nothing counts up across messages or texts
+			var out []Case
+			for _, n := range []int{20, 60, 110} {
+				mk := func(sf string) string {
+					var sb strings.Builder
+					for i := 0; i < n; i++ {
+						switch i % 3 {
+						case 0:
+							sb.WriteString(sf + " .\n")
+						case 1:
+							sb.WriteString(sf + " W <L <U1 x> ...[3]>.\n")
+						default:
+							sb.WriteString(sf + " name" + fmt.Sprint(i) + "\n<A \"t\">\n.\n")
+						}
+					}
+					return sb.String()
+				}
+				a, b := mk("S1F1"), mk("S2F3")
+				ra, rb, rab := parseSML(a), parseSML(b), parseSML(a+b)
+				cs := Case{Op: smlOp(a + b), Nontrivial: true, Tags: []string{fmt.Sprintf("many-messages:%d", 2*n)}}
+				switch {
+				case ra.panicked || rb.panicked || rab.panicked:
+					cs.Oracle = "panic"
+				case len(ra.errs)+len(rb.errs) != 0 || len(ra.msgs) != n || len(rb.msgs) != n:
+					cs.Oracle = fmt.Sprintf("%d warned messages alone: %d and %d messages, errors %v %v", n, len(ra.msgs), len(rb.msgs), ra.errs, rb.errs)
+				case len(rab.errs) != 0 || len(rab.msgs) != 2*n || len(rab.warns) != len(ra.warns)+len(rb.warns):
+					cs.Oracle = fmt.Sprintf("two accepted texts of %d messages each: the concatenation gives %d messages, %d warnings (alone %d + %d), errors %v", n, len(rab.msgs), len(rab.warns), len(ra.warns), len(rb.warns), rab.errs)
+				default:
+					for j := range rab.msgs {
+						w := ra.msgs
+						k := j
+						if j >= n {
+							w, k = rb.msgs, j-n
+						}
+						if d := sameMessage(rab.msgs[j], w[k]); d != "" {
 							cs.Oracle = fmt.Sprintf("message %d differs from the one parsed alone: %s", j, d)
 						}
 					}
